@@ -635,6 +635,9 @@ class Array(metaclass=MetaArray):
                     f"{self} was created with {self._get_size()}"
                 )
             self.__class__._to_buffer(self._buffer, self._offset, value, info)
+            if not self.__class__._is_static_type:
+                # the items of value may be distributed differently
+                self._offsets = info.offsets
         else:
             if is_integer(value):
                 raise ValueError(f"Cannot specify new length {ll} for {self}")
